@@ -72,8 +72,8 @@ PROPS["C07"] = {
     "level_note": "Trusted: as C06. One recorded finding (F10: reserved symbol names).",
     "technique": "Lean 4 proof (mutual structural induction) + differential correspondence",
     "modules": ["GitSizer.Props.C07", "GitSizer.Props.Pins.Group"],
-    "engines": [{"name": "refs", "quick": 12000, "thorough": 1200000, "per_shard": 3000}, {"name": "output", "quick": 1200, "thorough": 120000, "per_shard": 200}, {"name": "config", "quick": 3000, "thorough": 300000, "per_shard": 750}],
-    "rule": "same generator as C06; symbols compared as multisets per reference, Groups() exactly.",
+    "engines": [{"name": "refs", "quick": 12000, "thorough": 1200000, "per_shard": 3000}, {"name": "output", "quick": 1200, "thorough": 120000, "per_shard": 200}, {"name": "config", "quick": 3000, "thorough": 300000, "per_shard": 750}, {"name": "e2e", "quick": 160, "thorough": 8000, "per_shard": 20}],
+    "rule": "same generator as C06; symbols compared as multisets per reference, Groups() exactly; e2e: the real binary on generated repositories whose reference sets include symbolic references, names with Unicode spaces, ~3-KiB names, tags shadowing other namespaces (reference count = number of references; no failure).",
     "assumptions": ["tallies are the per-symbol counts of the categoriser's output (recordReferenceGroup is a counter increment)"],
 }
 
@@ -114,7 +114,7 @@ PROPS["C11"] = {
     "level_note": "Trusted: Lean kernel; gofacts (metric table extraction); exact integer model of float64 division (validated byte-exactly through the rendered markers and numerals); encoding/json. The model is tied to sizes/output.go by differential testing.",
     "technique": "Lean 4 proof on the renderer model over regenerated tables + byte-exact differential correspondence",
     "modules": ["GitSizer.Props.C11"],
-    "engines": [{"name": "output", "quick": 2400, "thorough": 120000, "per_shard": 200}, {"name": "human", "quick": 4000, "thorough": 200000, "per_shard": 20000}],
+    "engines": [{"name": "output", "quick": 2400, "thorough": 120000, "per_shard": 200}, {"name": "human", "quick": 4000, "thorough": 200000, "per_shard": 20000}, {"name": "opts", "quick": 320, "thorough": 16000, "per_shard": 20}],
     "rule": "synthetic measurements (each of 22 fields at k*reference for k=0..32 and +-1, saturated, zero, random) x two thresholds per case (0, 1, 30, fractional, 29.999, 30.0001, negative, 1e9, NaN, +Inf, -Inf, k, nextafter(k)) x name styles x witness sets (nil / null oid / shared oid / described) x refgroup lists (nested symbols to 14 dots, duplicate symbols, missing tallies); non-trivial = every case.",
     "assumptions": ["float64 division and conversion are IEEE-754 round-to-nearest-even"],
 }
